@@ -106,6 +106,16 @@ pub fn gen_world(rng: &mut Rng, p: &GenParams) -> WorldSpec {
     for t in &targets {
         for c in &cmds {
             if rng.chance(p.undefined_pct, 100) {
+                // sometimes a near miss sits in the command directory: `build.alt.sh` has the stem
+                // `build.alt`, it does not define `build`
+                if rng.chance(2, 5) {
+                    cmd_files.push(CmdFile {
+                        target: t.path.clone(),
+                        command: format!("{}__decoy", c),
+                        rel: format!("{}/monorail/cmd/{}.alt.sh", t.path, c),
+                        exec: true,
+                    });
+                }
                 continue;
             }
             cmd_files.push(CmdFile {
@@ -139,7 +149,7 @@ pub fn gen_world(rng: &mut Rng, p: &GenParams) -> WorldSpec {
 pub fn world_commands(spec: &WorldSpec) -> Vec<String> {
     let mut v: Vec<String> = vec![];
     for cf in &spec.cmd_files {
-        if !v.contains(&cf.command) {
+        if !v.contains(&cf.command) && !cf.command.ends_with("__decoy") {
             v.push(cf.command.clone());
         }
     }
@@ -425,6 +435,27 @@ pub fn canonical_result(tr: &RunTrace) -> String {
     match tr.result_json() {
         Some(mut v) => {
             strip_volatile(&mut v);
+            // Where the SUT is entitled to choose, the trace stores the equivalence class: in a group
+            // with a failing member, whether a started sibling is reported success, error with its
+            // code or code-less error depends on tokio's unseeded select! and on thread timing.
+            if let Some(rs) = v["results"].as_array_mut() {
+                for r in rs {
+                    if let Some(gs) = r["target_groups"].as_array_mut() {
+                        for g in gs {
+                            if let Some(m) = g.as_object_mut() {
+                                let failing = m.values().any(|e| e["status"] == "error");
+                                if failing {
+                                    for (_, e) in m.iter_mut() {
+                                        if e["status"] == "success" || e["status"] == "error" {
+                                            *e = serde_json::json!({"status": "ran (member of a failing group)"});
+                                        }
+                                    }
+                                }
+                            }
+                        }
+                    }
+                }
+            }
             v.to_string()
         }
         None => String::from("<none>"),
@@ -453,12 +484,13 @@ pub fn strip_volatile(v: &mut Value) {
 pub fn behav_exit0_all(spec: &WorldSpec, rng: &mut Rng, max_outs: usize) -> Vec<Behav> {
     spec.cmd_files
         .iter()
-        .filter(|c| c.exec)
+        .filter(|c| c.exec && !c.command.ends_with("__decoy"))
         .map(|c| Behav {
             command: c.command.clone(),
             target: c.target.clone(),
             outs: gen_outs(rng, &format!("{}:{}", c.command, c.target), max_outs),
             code: 0,
+            exit_pause_ms: 0,
         })
         .collect()
 }
